@@ -5,7 +5,7 @@ PROP = "C06"
 DRIVER = "c06"
 MODEL = "C06"
 MODEL_QUALID = "Model.TimeLimiter.run_script"
-FORMAT = ("script [cancel; dyn; n; T; t_0..t_(n-1); (op a b)*]: cancel 1 = cancel_running_future(true); dyn 0 = fixed timeout T ms, "
+FORMAT = ("script [cancel; dyn; n; T; t_0..t_(n-1); (op a b)*]: cancel bit0 = cancel_running_future(true), bit1 = the builder sets it before the timeout (builder-order glue); a timeout >= 10^15 ms stands for Duration::MAX; dyn 0 = fixed timeout T ms, "
           "1 = per-request timeout t_i ms for caller i; op 1=Poll a "
           "2=Drop a 3=Advance a(ms) 4=Complete a b(0 ok,1 err,2 panic) 5=Call a (build the future). "
           "trace: per event [r; val; wake mask; inner-call states base 4 (0 none 1 running 2 finished 3 dropped)] with "
@@ -26,7 +26,7 @@ def header(s):
     n = max(0, n)
     per = [(s[4 + i] if 4 + i < len(s) else 0) for i in range(n)]
     tm = [max(0, per[i] if dyn else T) for i in range(n)]
-    return (1 if cancel else 0), n, tm
+    return (1 if cancel % 2 else 0), n, tm
 
 
 def events(s):
@@ -168,7 +168,7 @@ def corpus():
 
 
 def plan_script(rng, maxn=4):
-    cancel = rng.choice([0, 1])
+    cancel = rng.choice([0, 1, 2, 3])   # bit 0: cancel_running_future; bit 1: builder calls it BEFORE the timeout setter
     dyn = rng.choice([0, 1])
     n = rng.randint(1, maxn)
     T = rng.choice([0, 1, 5, 10, 10, 20])
@@ -225,11 +225,11 @@ def plan_script(rng, maxn=4):
 
 
 def random_script(rng, maxn=4, maxlen=30):
-    cancel = rng.choice([0, 1])
+    cancel = rng.choice([0, 1, 2, 3])   # bit 0: cancel_running_future; bit 1: builder calls it BEFORE the timeout setter
     dyn = rng.choice([0, 1])
     n = rng.randint(1, maxn)
-    T = rng.choice([0, 2, 5, 10])
-    per = [rng.choice([0, 1, 2, 5, 10]) for _ in range(n)]
+    T = rng.choice([0, 2, 5, 10, 10 ** 18])                  # 10^18 ms stands for Duration::MAX
+    per = [rng.choice([0, 1, 2, 5, 10, 10 ** 18]) for _ in range(n)]
     s = [cancel, dyn, n, T] + per
     for _ in range(rng.randint(3, maxlen)):
         x = rng.random()
